@@ -13,7 +13,7 @@ Rec(k, kind) ==
    sns |-> IF kind \in {"intra", "src", "deny"} THEN "ns" ELSE "",
    dns |-> IF kind \in {"intra", "dst"} THEN "nd" ELSE "",
    ftype |-> IF kind = "intra" THEN 1 ELSE 2,
-   egress |-> IF kind = "deny" THEN 2 ELSE 0, ingress |-> 0, prio |-> IF kind = "dst" THEN -1 ELSE 0,
+   egress |-> IF kind = "deny" THEN 2 ELSE 0, ingress |-> 0, prio |-> IF kind = "dst" THEN -1 ELSE 0, cip |-> IF kind = "dst" THEN <<10, 96, 0, 1>> ELSE <<0, 0, 0, 0>>,
    start |-> 0, end |-> 1, vals |-> Zero6, reason |-> 2]      \* arithmetic is not the subject here
 
 \* VIEW: the expiry/correlation skeleton (counters and histories are hidden)
